@@ -93,6 +93,11 @@ def alphabet():
     return a
 
 
+# the third and later free positions of a deep condition draw from this representative subset (one per token class)
+TAIL = ["if", "else", "endif", "for", "endfor", "in", "is", "not", "and", "set", "block", "endblock", "macro", "call", "as", "a", "-", "*", "**", "~",
+        "(", ")", "[", "]", "{", "}", "=", ".", ":", "|", ",", "1", "'s'", "{{", "}}", "{%", "%}", "x"]
+
+
 class NeedMore(Exception):
     pass
 
@@ -135,12 +140,17 @@ def wants_more(env, spellings):
         return False
     except RecursionError:
         return False
+    except AssertionError:
+        # the synthetic stream put an expression token where a real lexer can only produce template data (after the
+        # tag was closed): not a prefix the lexer can produce, nothing to extend; the text itself is still checked
+        # through the public API by seq_check
+        return False
     return False
 
 
 def seq_ok(sel: List[int]) -> bool:
     """
-    pre: len(sel) == MAXN() and all(0 <= s < NALPHA() for s in sel)
+    pre: len(sel) == MAXN() and all(0 <= s < NALPHA() for s in sel[:2]) and all(0 <= s < len(TAIL) for s in sel[2:])
     post: _
     """
     env = ENVS[P.get("env", "default")]
@@ -152,7 +162,10 @@ def seq_ok(sel: List[int]) -> bool:
             more = wants_more(env, prefix)
         if not more:
             break
-        prefix.append(alpha[pick(sel[i], len(alpha))])
+        if i >= 2:
+            prefix.append(TAIL[pick(sel[i], len(TAIL))])
+        else:
+            prefix.append(alpha[pick(sel[i], len(alpha))])
     with NoTracing():
         return seq_check(env, prefix)
 
@@ -427,12 +440,12 @@ def conditions(tier, seed):
                 k += 1
                 if envk != "default" and (k + seed) % (2 if th else 4):
                     continue
-                deep = (k + seed) % (3 if th else 9) == 0
+                deep = (k + seed) % (4 if th else 9) == 0
                 n = (3 if deep else 2) if th else (2 if deep else 1)
                 out.append(Cond(f"tokens[{envk}] {first} {' '.join(lead)} + <= {n} more", "seq_ok", mode="B",
                                 param={"env": envk, "first": first, "lead": lead, "n": n}, timeout=to * (3 if n > 1 else 1),
-                                witnesses=[[[0] * n], [([45, 46, 47] * 2)[:n]], [([len(KW) + 8, 43, len(KW) + 9] * 2)[:n]]],
-                                bounds=f"fixed lead + up to {n} further tokens from the {len(KW) + len(OPS) + len(LITS) + len(STRUCT)}(+{len(EXTKW)})-token alphabet, pruned by what the real parser asks for"))
+                                witnesses=[[[0] * n], [[45, 46, 17][:n]], [[len(KW) + 8, 43, 20][:n]]],
+                                bounds=f"fixed lead + up to {n} further tokens from the {len(KW) + len(OPS) + len(LITS) + len(STRUCT)}(+{len(EXTKW)})-token alphabet (a third token from a {len(TAIL)}-token representative subset), pruned by what the real parser asks for"))
     ns = 3
     total = len(SEEDS)
     for envk in (["default", "ext", "async", "sandbox"] if th else ["default", "ext"]):
